@@ -3,10 +3,10 @@ from .core import BASE_TRUST, LEAN, Problem
 
 META = {
     "category": "proof",
-    "text": "PARTIAL. Lean 4 proof that the Discard discipline makes the value pool safe (heap + free list + clients: for ALL operation sequences obeying 'discard only what you alone reference, never touch it afterwards', every read returns the value the reader was given; invariant: no address both free and live) with a counter-witness for a premature discard; every value.Discard(x) call site of lib/query and lib/value and every assignment of lib/query that writes through a parser.* value is regenerated from /repo on every run (go/ast + go/types) and checked by `decide` (all sites fresh, not used afterwards, not escaping; the value.To* conversions return value.New* results on every path; theorems ast_readonly, cells_never_overwritten, scope_closed_once, getters_return_copies, no_double_discard: NO write into a shared syntax tree, no store into an existing (slice-shared) table cell, no scope block closed both by a function and by its callee, every Get* accessor of a stored view returns a copy; pre-finding F8 was repaired in /repo by commit 02f8662 and stays watched: a new shared write breaks ast_readonly and is reported as astwrite:<file>:<function>:<lhs>, a bad Discard as discard:<file>:<function>:<var>:<reason>, a cell overwrite as cellwrite:…, a double close as doubleclose:…, a conversion handing back its argument as conversion:value.<To*>:notFresh). TRUSTED, not proved: the step 'syntactic fact => behaviour of the running program' (callees are not analysed), sync.Pool as a free list. Cross-checked on every run: generated statements over all built-in scalar functions, operators and clauses evaluated twice (plain / WHILE / user-defined function / PREPARE+EXECUTE), syntax trees printed before and after execution, tables / cursor rows / variables read again; the statements the cross-check executes are DERIVED from the grammar: every statement kind that lib/parser/parser.y builds / Processor.ExecuteStatement dispatches on and every operand position (Node.Field filled from a grammar symbol deriving an arbitrary scalar expression: LIMIT n / n PERCENT / WITH TIES, OFFSET, FETCH ABSOLUTE n, SET @%ENV / @@flag, ADD / REMOVE flag element, ECHO / PRINT / PRINTF, CHDIR, SOURCE, EXECUTE … USING, TRIGGER ERROR, function / aggregate / list / analytic arguments, JSON_ROW, table functions, CASE, IN lists, BETWEEN, LIKE, SUBSTRING … FROM … FOR, parameter defaults, DML values, column defaults, table attributes …) is regenerated on every run into Gen/StmtKinds.lean together with the workloads harness/cmd/c14/workloads.go declares; theorems every_statement_kind_has_workload / every_operand_slot_has_workload (decide) fail for a kind or position without a workload (reported workload:missing:…), and the harness checks on every run that the hole of each workload really is at the declared position of the parsed tree (law workload_slot_mismatch) and that the workload succeeds for some operand (workload_never_succeeds); each workload is run with operands of every value type (integer, float, string, numeric string, datetime, boolean, NULL) held as tree literal, as variable, as cursor-fetched variable, as cell of a typed temporary table and as column reference, executed twice from ONE syntax tree, and after each execution (and after fresh allocations of every pooled type, so that the real pool re-issues an object released too early) all variables, the operand table, the cursor row and every literal of the statement's own tree are read again and compared with their first reading (laws reread:variable / reread:table / reread:cursor / ast_unchanged / repeat_eval:same_tree, under poisoning poisoned_read); half of the workload processes run with the Discard-poisoning hook H2 switched on and every result cell, printed syntax tree, syntax-tree literal, variable, cursor row and re-read table cell is searched for the poison values (law poisoned_read)",
+    "text": "PARTIAL. Lean 4 proof that the Discard discipline makes the value pool safe (heap + free list + clients: for ALL operation sequences obeying 'discard only what you alone reference, never touch it afterwards', every read returns the value the reader was given; invariant: no address both free and live) with a counter-witness for a premature discard; every value.Discard(x) call site of lib/query and lib/value and every assignment of lib/query that writes through a parser.* value is regenerated from /repo on every run (go/ast + go/types) and checked by `decide` (all sites fresh, not used afterwards, not escaping; the value.To* conversions return value.New* results on every path; theorems ast_readonly, cells_never_overwritten, scope_closed_once, getters_return_copies, no_double_discard: NO write into a shared syntax tree, no store into an existing (slice-shared) table cell, no scope block closed both by a function and by its callee, every Get* accessor of a stored view returns a copy; pre-finding F8 was repaired in /repo by commit 02f8662 and stays watched: a new shared write breaks ast_readonly and is reported as astwrite:<file>:<function>:<lhs>, a bad Discard as discard:<file>:<function>:<var>:<reason>, a cell overwrite as cellwrite:…, a double close as doubleclose:…, a conversion handing back its argument as conversion:value.<To*>:notFresh). VALUE LISTS (Props/C14Lists.lean): 'a function that receives a value list it does not own never writes into it' — over an abstract heap of lists with ownership, for ALL call sequences in which in-place writers only run on lists that are not shared (fresh in the caller), every list reachable from a table cell / variable / syntax tree keeps its value (owned_writes_preserve_shared, published_list_keeps_value, fresh_call_sites_preserve_shared: induction over the sequence; shared_write_counterexample: COUNT(DISTINCT x) compacting the grouped record's own list turns 1,1,2,3,3 into 1,2,3,3,3 and the second SUM from 10 into 12); every write THROUGH a parameter or receiver of type []value.Primary / Cell / Record / RecordSet (lists of those) of every function of lib/query and lib/value — p[i] = …, copy, append onto a re-slice, append behind len, sort.*, handing the list to a callee that writes through its own parameter (fixed point over the call graph; function values and interface methods resolve to every declared function of identical signature) or to an unknown outside function — and every call of an in-place writer with the origin of its argument (fresh in the caller / the caller's own parameter / a view's cell / a field / unknown), and every write through a local that holds somebody else's list, is regenerated on every run (Gen/ListWriteFacts.lean, 190 parameters) and checked by kernel evaluation against a reviewed exception table (list_write_facts_ok, list_param_classes_agree, reviewed_list_exceptions_live, aggregate_functions_read_only: a NEW in-place write or a NEW non-fresh argument breaks the obligation and is reported as listwrite:<file>:<function>:<parameter>:<kind> / listcall:<file>:<caller>:<callee>:<origin> / listforeign:…). TRUSTED, not proved: the step 'syntactic fact => behaviour of the running program' (callees are not analysed for Discard / syntax trees; for value lists ownership is tracked for the outermost slice, flow-insensitively), sync.Pool as a free list. Cross-checked on every run: generated statements over all built-in scalar functions, operators and clauses evaluated twice (plain / WHILE / user-defined function / PREPARE+EXECUTE), syntax trees printed before and after execution, tables / cursor rows / variables read again; the statements the cross-check executes are DERIVED from the grammar: every statement kind that lib/parser/parser.y builds / Processor.ExecuteStatement dispatches on and every operand position (Node.Field filled from a grammar symbol deriving an arbitrary scalar expression: LIMIT n / n PERCENT / WITH TIES, OFFSET, FETCH ABSOLUTE n, SET @%ENV / @@flag, ADD / REMOVE flag element, ECHO / PRINT / PRINTF, CHDIR, SOURCE, EXECUTE … USING, TRIGGER ERROR, function / aggregate / list / analytic arguments, JSON_ROW, table functions, CASE, IN lists, BETWEEN, LIKE, SUBSTRING … FROM … FOR, parameter defaults, DML values, column defaults, table attributes …) is regenerated on every run into Gen/StmtKinds.lean together with the workloads harness/cmd/c14/workloads.go declares; theorems every_statement_kind_has_workload / every_operand_slot_has_workload (decide) fail for a kind or position without a workload (reported workload:missing:…), and the harness checks on every run that the hole of each workload really is at the declared position of the parsed tree (law workload_slot_mismatch) and that the workload succeeds for some operand (workload_never_succeeds); each workload is run with operands of every value type (integer, float, string, numeric string, datetime, boolean, NULL) held as tree literal, as variable, as cursor-fetched variable, as cell of a typed temporary table and as column reference, executed twice from ONE syntax tree, and after each execution (and after fresh allocations of every pooled type, so that the real pool re-issues an object released too early) all variables, the operand table, the cursor row and every literal of the statement's own tree are read again and compared with their first reading (laws reread:variable / reread:table / reread:cursor / ast_unchanged / repeat_eval:same_tree, under poisoning poisoned_read); a value changed WITHIN one statement (harness/cmd/c14/within.go): for every function of query.AggregateFunctions, LISTAGG, JSON_AGG, a user-defined aggregate and every modifier (DISTINCT, WITHIN GROUP (ORDER BY …), analytic ORDER BY, window frames, IGNORE NULLS) a candidate is placed between two copies of a probe reading the same column — SELECT k, p, c, p … GROUP BY k / without GROUP BY / candidate first / candidate in HAVING / in ORDER BY / as analytic functions over the same partition — over groups with duplicates followed by a different value, NULLs and single rows: the two probes must be equal and equal to the statement without the candidate (law same_expression_same_value_within_statement), the table re-read afterwards (reread:table); half of the workload processes run with the Discard-poisoning hook H2 switched on and every result cell, printed syntax tree, syntax-tree literal, variable, cursor row and re-read table cell is searched for the poison values (law poisoned_read)",
     "design_ref": "DESIGN.md section 5, C14",
-    "note": "trusted: Lean kernel (propext, Classical.choice, Quot.sound only), the extractor extract/discardfacts (conservative, syntactic), sync.Pool modelled as a free list, harness generators. Hook H2 is built (/repo 3417236, build tag verif, VERIF_POISON_DISCARD=1): in every other workload process Discard overwrites the object with a recognisable poison and never re-issues it, so a read of a discarded object is reported (law poisoned_read) the first time it happens, without waiting for the pool to re-issue the object; what H2 does not give: paths the generators never execute, and the NaN poison of a Float is recognised on values (result views, syntax-tree literals, re-read tables), not in printed text",
-    "technique": "Lean 4 machine-checked proof over a heap/pool model + facts regenerated from the Go source and the grammar checked by kernel evaluation + differential self-comparison (evaluate twice / read again; statement and operand corpus derived from parser.y) on the real code",
+    "note": "trusted: Lean kernel (propext, Classical.choice, Quot.sound only), the extractor extract/discardfacts (conservative, syntactic; listwrite.go: flow-insensitive aliasing of value-list parameters, ownership of the outermost slice only, a sync.Pool Get counts as fresh), sync.Pool modelled as a free list, harness generators. Hook H2 is built (/repo 3417236, build tag verif, VERIF_POISON_DISCARD=1): in every other workload process Discard overwrites the object with a recognisable poison and never re-issues it, so a read of a discarded object is reported (law poisoned_read) the first time it happens, without waiting for the pool to re-issue the object; what H2 does not give: paths the generators never execute, and the NaN poison of a Float is recognised on values (result views, syntax-tree literals, re-read tables), not in printed text",
+    "technique": "Lean 4 machine-checked proof over a heap/pool model and a heap of value lists with ownership + facts regenerated from the Go source and the grammar checked by kernel evaluation + differential self-comparison (evaluate twice / read again; statement and operand corpus derived from parser.y) on the real code",
 }
 
 DISCARD_RE = re.compile(r'⟨"([^"]*)", (\d+), "([^"]*)", "((?:[^"\\]|\\.)*)", (true|false), (true|false), (true|false), "((?:[^"\\]|\\.)*)"⟩')
@@ -51,6 +51,35 @@ def parse_list(name):
     return out
 
 
+LW_RE = re.compile(r'⟨"([^"]*)", (\d+), "([^"]*)", "([^"]*)", "((?:[^"\\]|\\.)*)", "((?:[^"\\]|\\.)*)"⟩')
+LC_RE = re.compile(r'⟨"([^"]*)", (\d+), "([^"]*)", "([^"]*)", "([^"]*)", "((?:[^"\\]|\\.)*)", "([^"]*)", "((?:[^"\\]|\\.)*)"⟩')
+
+
+def parse_listwrites():
+    """Gen/ListWriteFacts.lean: write sites, calls of in-place writers, writes through foreign locals; and the reviewed
+    tables of Props/C14Lists.lean (function, parameter, kind, text) / (caller, callee, parameter, argument)"""
+    p = LEAN / "Csvq" / "Gen" / "ListWriteFacts.lean"
+    sites, calls, foreign = [], [], []
+    if p.exists():
+        txt = p.read_text()
+        body = lambda name: txt.partition("def %s " % name)[2].split("\ndef ", 1)[0]
+        for m in LW_RE.finditer(body("listWriteSites")):
+            sites.append({"file": m.group(1), "line": int(m.group(2)), "fn": m.group(3), "param": m.group(4), "kind": unq(m.group(5)), "text": unq(m.group(6))})
+        for name, dst in (("listWriterCalls", calls), ("listForeignWrites", foreign)):
+            for m in LC_RE.finditer(body(name)):
+                dst.append({"file": m.group(1), "line": int(m.group(2)), "caller": m.group(3), "callee": m.group(4), "param": m.group(5), "arg": unq(m.group(6)),
+                            "origin": m.group(7), "detail": unq(m.group(8))})
+    rw, rc = set(), set()
+    pp = LEAN / "Csvq" / "Props" / "C14Lists.lean"
+    if pp.exists():
+        txt = pp.read_text()
+        for name, dst in (("reviewedWriters", rw), ("reviewedCalls", rc)):
+            body = txt.partition("def %s " % name)[2].split("\ndef ", 1)[0]
+            for m in re.finditer(r'\("([^"]*)", "([^"]*)", "((?:[^"\\]|\\.)*)", "((?:[^"\\]|\\.)*)",', body):
+                dst.add((m.group(1), m.group(2), unq(m.group(3)), unq(m.group(4))))
+    return sites, calls, foreign, rw, rc
+
+
 def parse_stmtkinds():
     """the string lists of Gen/StmtKinds.lean"""
     p = LEAN / "Csvq" / "Gen" / "StmtKinds.lean"
@@ -71,6 +100,7 @@ def run(run):
         "F8 (Analyze writing fn.Args[0] through the shared argument slice) is fixed in /repo (02f8662); COUNT(*) OVER (...) statements stay in the corpus of the dynamic cross-check (plain, WHILE, PREPARE/EXECUTE twice, syntax tree printed before/after)",
         "TRUSTED: a Discard site the extractor reports fresh / not used afterwards / not escaping behaves so at run time (value.IsNull, value.To* and the getters Raw/Ternary/String/Format do not keep their argument; functions that receive a value or a syntax tree from the analysed function are not analysed themselves)",
         "TRUSTED: sync.Pool behaves as the free list of Csvq/Model/Pool.lean (Get returns an object that was Put or a new one); objects of different types live in different pools",
+        "value lists: a parameter's aliases are tracked flow-insensitively (q := p[a:b], c := p[i], range, append, conversions, callees that hand back their argument); deeper sharing (a fresh Record whose cells are shared) is the subject of cells_never_overwritten; `pool.Get().(Record)` of a sync.Pool counts as a list made by the taker",
         "syntax trees: only assignments (and copy / sort calls) inside lib/query are inspected; a write is 'shared' when its access path from a parser.* value passes a slice/map element or a pointer",
         "hook H2 (lib/value/verif_on.go, tag verif): with VERIF_POISON_DISCARD=1 a discarded String/Integer/Float/Datetime is overwritten with a poison value and not returned to the pool; the workload processes alternate between poisoning ON (premature Discard => poisoned_read) and OFF (real pool recycling => repeat_eval / reread differences)",
         "dynamic cross-check compares each statement with its own second evaluation; RAND and NOW are documented non-deterministic and never generated",
@@ -80,6 +110,32 @@ def run(run):
     ok2 = run.regen("astwritefacts", argv + ["astwritefacts"], "Csvq/Gen/AstWriteFacts.lean")
 
     ok3 = run.regen("stmtkinds", argv + ["stmtkinds"], "Csvq/Gen/StmtKinds.lean")
+    ok4 = run.regen("listwritefacts", argv + ["listwritefacts"], "Csvq/Gen/ListWriteFacts.lean")
+    # value lists: a write through a parameter that is not reviewed, an in-place writer called on a list that is not
+    # fresh in the caller, a write through a local holding somebody else's list (Csvq.C14Lists.list_write_facts_ok)
+    list_sites = []
+    if ok4:
+        lsites, lcalls, lforeign, rev_w, rev_c = parse_listwrites()
+        short = lambda fn: fn.split(".", 1)[1] if "." in fn else fn
+        for f in lsites:
+            if (f["fn"], f["param"], f["kind"], f["text"]) in rev_w:
+                continue
+            sg = "listwrite:%s:%s:%s:%s" % (f["file"], short(f["fn"]), f["param"], f["kind"])
+            list_sites.append(sg)
+            run.problems.append(Problem("direct", sg, {"what": "a function writes IN PLACE through a value-list parameter ([]value.Primary / Cell / Record / RecordSet) it does not own: every other holder of the same backing array (the grouped record's cell, a cached table, a cursor row) reads the rewritten elements",
+                                                       "site": "%s:%d" % (f["file"], f["line"]), "write": f["text"], "kind": f["kind"]}, concrete=False, signature=sg))
+        for f in lcalls:
+            if f["origin"] in ("fresh", "ownParam") or (f["caller"], f["callee"], f["param"], f["arg"]) in rev_c:
+                continue
+            sg = "listcall:%s:%s:%s:%s" % (f["file"], short(f["caller"]), short(f["callee"]), f["origin"])
+            list_sites.append(sg)
+            run.problems.append(Problem("direct", sg, {"what": "an in-place writer is called on a list that is not fresh in the caller (a view's / record's own cell, a field, a callee's non-fresh result): the call rewrites data the statement only reads",
+                                                       "site": "%s:%d" % (f["file"], f["line"]), "argument": f["arg"], "comes_from": f["detail"]}, concrete=False, signature=sg))
+        for f in lforeign:
+            sg = "listforeign:%s:%s:%s:%s" % (f["file"], short(f["caller"]), f["callee"], f["origin"])
+            list_sites.append(sg)
+            run.problems.append(Problem("direct", sg, {"what": "a write through a local variable that holds a list the function neither made nor received as a parameter",
+                                                       "site": "%s:%d" % (f["file"], f["line"]), "write": f["arg"], "comes_from": f["detail"]}, concrete=False, signature=sg))
     # statement kinds / operand positions of the grammar that the dynamic cross-check has no workload for
     # (Csvq.C14.every_statement_kind_has_workload, every_operand_slot_has_workload)
     missing_workloads = []
@@ -157,8 +213,8 @@ def run(run):
             run.problems.append(Problem("direct", sg, {"what": "the current block / node of a scope is handed back to its pool here and again in the callee that receives the same scope: the pool will issue one block to two live scopes",
                                                        "site": "%s:%d" % (f["file"], f["line"]), "how": f["how"]}, concrete=False, signature=sg))
 
-    if ok1 and ok2 and ok3:
-        run.obligations_for(["Csvq.Props.C14"])
+    if ok1 and ok2 and ok3 and ok4:
+        run.obligations_for(["Csvq.Props.C14", "Csvq.Props.C14Lists"])
 
     before = len(run.problems)
     run.stream("c14", 420 if q else 10000, timeout=1500)
@@ -188,7 +244,7 @@ def run(run):
             p.detail["confirmed_dynamically"] = p.signature in confirmed
 
     extra = {
-        "cell_writes_and_double_closes": other_sites, "discard_sites": len(dfacts), "conversions_not_fresh": conv_bad, "double_discards": dbl, "discard_sites_outside_discipline": sorted(bad_sites),
+        "cell_writes_and_double_closes": other_sites, "list_writes_outside_discipline": list_sites, "discard_sites": len(dfacts), "conversions_not_fresh": conv_bad, "double_discards": dbl, "discard_sites_outside_discipline": sorted(bad_sites),
         "ast_writes_shared": sorted(ast_sites), "ast_writes_local_copy_or_fresh": len(local),
         "static_sites_confirmed_dynamically": sorted(confirmed),
         "grammar_statement_kinds": len(sk.get("grammarStatementKinds", [])), "executed_statement_kinds": len(sk.get("executedStatementKinds", [])),
@@ -200,10 +256,10 @@ def run(run):
                              ["ast write %s:%d %s %s (%s)" % (f["file"], f["line"], f["fn"], f["lhs"], f["how"]) for f in (shared + local)[:2]] + run.cov["samples"]
     return run.finish(
         level="proof",
-        rule="static: every value.Discard call site of lib/query and lib/value and every assignment / copy / sort of lib/query reaching through a parser.* value, checked by kernel evaluation; dynamic: expressions generated over every scalar function of the Functions map (argument types found by probing), arithmetic, comparison, logic, CASE, IN, BETWEEN, LIKE, IS, ANY/ALL, casts, in SELECT / WHERE / GROUP BY+aggregates / DISTINCT / analytic functions / JOIN / subqueries / UNION, each evaluated twice as plain statement, WHILE body, user-defined function body and prepared statement over 240 rows at @@CPU 4, plus re-reading tables, cursor rows and variables after unrelated statements, alternately with and without Discard poisoning (a fixed corpus incl. COUNT(*) OVER, NTH_VALUE, ORDER BY / PARTITION BY on text columns, comma-separated FROM lists and functions over datetime-typed temp-view cells / variables runs first in both modes; the generated kinds include those two shapes as well, plus: rows held by a cursor / derived temporary view / variable re-read after UPDATE, DELETE, REPLACE, ALTER on the base table and the base table after ROLLBACK (laws reread:held_rows, rollback_restores); adding a column (JSON_OBJECT over column references in every order, NOW, list aggregates WITHIN GROUP, analytic list functions, generated expressions) must leave the other columns of the result unchanged (law extra_column_changes_others); a statement that reads one WITH table twice (two scalar sub-queries, outer query + sub-query, UNION ALL) after an in-place step of the first read must give for the second read what a fresh read gives (law reread:inline_table); every built-in with NULL in each argument position on the main goroutine followed by a probe of the value pools (no object handed to two allocations) and, with poisoning on, by the hook's log of Discards of already discarded objects (law double_discard); DISPOSE of variables whose value object is shared with a table cell / cursor row / literal of a loop or function body / another variable, then same-type allocations and a re-read; unary plus / minus over every numeric class compared with multiplication by 1 / -1 and kept in variables across further allocations (law unary_identity); UPDATE … FROM / DELETE … FROM over one-to-many joins followed by single-record statements whose effect identifies the record touched (law dml_targets); user-defined aggregates followed by a probe of csvq's block / node pools (pairwise distinct, empty: pool_no_alias) and by a function with nested blocks compared with its results in the fresh process (repeat_eval:after_uda)); grammar-derived workloads (workloads.go: one or more templates per statement kind and per operand position of parser.y, the list compared with the regenerated grammar facts by Csvq.C14.every_statement_kind_has_workload / every_operand_slot_has_workload; every template x operand type {integer, float, string, numeric string, datetime, boolean, NULL} x holder {tree literal, variable, cursor-fetched variable, table cell via sub-query, column reference}, executed twice from one tree with GOMAXPROCS 1, pooled allocations and a full re-read of variables / operand table / cursor row / tree literals after each execution; every built-in scalar function argument by argument the same way (a sample per run in the quick tier, all in the thorough tier)); non-trivial = distinct (kind, statement form, error?, result-length class)",
+        rule="static: every value.Discard call site of lib/query and lib/value, every assignment / copy / sort of lib/query reaching through a parser.* value, every write through a value-list parameter ([]value.Primary / Cell / Record / RecordSet) and every call of an in-place writer with the origin of its argument, checked by kernel evaluation; dynamic: within-statement shapes (every aggregate / list / analytic function x DISTINCT / WITHIN GROUP / ORDER BY / frame between two probes of the same column, law same_expression_same_value_within_statement); expressions generated over every scalar function of the Functions map (argument types found by probing), arithmetic, comparison, logic, CASE, IN, BETWEEN, LIKE, IS, ANY/ALL, casts, in SELECT / WHERE / GROUP BY+aggregates / DISTINCT / analytic functions / JOIN / subqueries / UNION, each evaluated twice as plain statement, WHILE body, user-defined function body and prepared statement over 240 rows at @@CPU 4, plus re-reading tables, cursor rows and variables after unrelated statements, alternately with and without Discard poisoning (a fixed corpus incl. COUNT(*) OVER, NTH_VALUE, ORDER BY / PARTITION BY on text columns, comma-separated FROM lists and functions over datetime-typed temp-view cells / variables runs first in both modes; the generated kinds include those two shapes as well, plus: rows held by a cursor / derived temporary view / variable re-read after UPDATE, DELETE, REPLACE, ALTER on the base table and the base table after ROLLBACK (laws reread:held_rows, rollback_restores); adding a column (JSON_OBJECT over column references in every order, NOW, list aggregates WITHIN GROUP, analytic list functions, generated expressions) must leave the other columns of the result unchanged (law extra_column_changes_others); a statement that reads one WITH table twice (two scalar sub-queries, outer query + sub-query, UNION ALL) after an in-place step of the first read must give for the second read what a fresh read gives (law reread:inline_table); every built-in with NULL in each argument position on the main goroutine followed by a probe of the value pools (no object handed to two allocations) and, with poisoning on, by the hook's log of Discards of already discarded objects (law double_discard); DISPOSE of variables whose value object is shared with a table cell / cursor row / literal of a loop or function body / another variable, then same-type allocations and a re-read; unary plus / minus over every numeric class compared with multiplication by 1 / -1 and kept in variables across further allocations (law unary_identity); UPDATE … FROM / DELETE … FROM over one-to-many joins followed by single-record statements whose effect identifies the record touched (law dml_targets); user-defined aggregates followed by a probe of csvq's block / node pools (pairwise distinct, empty: pool_no_alias) and by a function with nested blocks compared with its results in the fresh process (repeat_eval:after_uda)); grammar-derived workloads (workloads.go: one or more templates per statement kind and per operand position of parser.y, the list compared with the regenerated grammar facts by Csvq.C14.every_statement_kind_has_workload / every_operand_slot_has_workload; every template x operand type {integer, float, string, numeric string, datetime, boolean, NULL} x holder {tree literal, variable, cursor-fetched variable, table cell via sub-query, column reference}, executed twice from one tree with GOMAXPROCS 1, pooled allocations and a full re-read of variables / operand table / cursor row / tree literals after each execution; every built-in scalar function argument by argument the same way (a sample per run in the quick tier, all in the thorough tier)); non-trivial = distinct (kind, statement form, error?, result-length class)",
         trusted_base=BASE_TRUST + [
-            "extract/discardfacts: conservative syntactic facts (go/ast + go/types); callees are not analysed; mode stmtkinds reads the statement kinds / operand positions off the actions of parser.y (composite literals, fields filled from value symbols) and the workload table off harness/cmd/c14/workloads.go",
+            "extract/discardfacts: conservative syntactic facts (go/ast + go/types); callees are not analysed (value lists: one summary per function — writes through each list parameter, which parameters a list result may alias — propagated to a fixed point); mode stmtkinds reads the statement kinds / operand positions off the actions of parser.y (composite literals, fields filled from value symbols) and the workload table off harness/cmd/c14/workloads.go",
             "sync.Pool modelled as a free list (Csvq/Model/Pool.lean)"],
-        checker_cmd="cd /verif && go run -C extract/discardfacts . discardfacts > lean/Csvq/Gen/DiscardFacts.lean && go run -C extract/discardfacts . astwritefacts > lean/Csvq/Gen/AstWriteFacts.lean && go run -C extract/discardfacts . stmtkinds > lean/Csvq/Gen/StmtKinds.lean && cd lean && lake build Csvq.Props.C14 && lake env lean <#print axioms for every theorem>",
+        checker_cmd="cd /verif && go run -C extract/discardfacts . discardfacts > lean/Csvq/Gen/DiscardFacts.lean && go run -C extract/discardfacts . astwritefacts > lean/Csvq/Gen/AstWriteFacts.lean && go run -C extract/discardfacts . stmtkinds > lean/Csvq/Gen/StmtKinds.lean && go run -C extract/discardfacts . listwritefacts > lean/Csvq/Gen/ListWriteFacts.lean && cd lean && lake build Csvq.Props.C14 Csvq.Props.C14Lists && lake env lean <#print axioms for every theorem>",
         extra_cov=extra,
     )
